@@ -112,6 +112,20 @@ def _vars(t, cache={}):
     return out
 
 
+def _free_consts(t):
+    out, seen, stack = [], set(), [t]
+    while stack:
+        x = stack.pop()
+        if x.get_id() in seen:
+            continue
+        seen.add(x.get_id())
+        if z3.is_const(x) and x.decl().kind() == z3.Z3_OP_UNINTERPRETED:
+            out.append(x)
+        elif z3.is_app(x):
+            stack.extend(x.children())
+    return out
+
+
 def relevant(hyps, goals):
     """cone of influence: the hypotheses sharing (transitively) a symbol with the goals.
     Dropping the others is sound for validity, and keeps 'sat' answers sat (the dropped ones are over
@@ -784,7 +798,10 @@ class SInt:
         return _cmp("ne", self, o)
 
     def __hash__(self):
-        raise OutOfReach("hash of a symbolic int (dict key / set member)")
+        # one hash bucket for all symbolic ints: set / dict membership is then decided by __eq__, i.e. by a
+        # (forking) semantic equality test, never by the syntax of the term.  Mixed int / SInt keys are not
+        # supported soundly (an int hashes to itself); ginjax only builds sets of channel counts of one kind.
+        return 0x51A7
 
     def __index__(self):
         c = concrete_int(self)
